@@ -40,3 +40,15 @@ Theorem C01_independent_left : forall N T M, (2 <= N)%nat -> TInv N T M ->
   (r_indep (fst (score_except_backoff N T ctx w)) = true <->
    no_left_extension T ctx w (r_len (fst (score_except_backoff N T ctx w)))).
 Proof. intros N T M HN I ctx w Hw Hl. eapply indep_left_spec; eassumption. Qed.
+
+(* The loader invariants are decidable on a finite table.  The checker is sound (for every table and file),
+   so a table that passes it enjoys every theorem above.  The correspondence harness evaluates the extracted
+   checker on the tables both loader models build for every generated ARPA file. *)
+From Kenlm Require Import LM.InvCheck.
+Theorem C01_inv_check_sound : forall N t m, tinv_check N t m = true -> TInv N (alookup t) (mlookup m).
+Proof. exact tinv_check_sound. Qed.
+
+Corollary C01_checked_table_scores_are_arpa : forall N t m K, (2 <= N)%nat -> tinv_check N t m = true ->
+  forall ctx w, alookup t [w] <> None ->
+  r_prob (fst (full_score_forgot N (alookup t) K ctx w)) = bo_score N (mlookup m) ctx w.
+Proof. intros N t m K HN Hc ctx w Hw. exact (forgot_prob N HN _ _ K (tinv_check_sound N t m Hc) ctx w Hw). Qed.
